@@ -27,6 +27,8 @@ func runC09(c *core.Ctx) {
 	c.RuleDoc("R09.4", "root prefix test respects element boundaries")
 	c.RuleDoc("R09.5", "standard os errors pass through the translator")
 	c.RuleDoc("R09.6", "FromOSPath requires an absolute path")
+	c.RuleDoc("R09.11", "os.relPath never returns a path with a leading separator")
+	c.RuleDoc("R09.12", "Sub roots are joined with path.Join on validated names (= R07.1)")
 	c.RuleDoc("R09.10", "a Sub view of the OS-backed FS never stores the root \".\"")
 	c.RuleDoc("R09.9", "a prefix that is cut off an OS path is admitted by an exact, not a case-insensitive, comparison")
 	c.RuleDoc("R09.8", "a view built from an os.FS keeps every string configuration field of its parent")
@@ -52,6 +54,13 @@ func runC09(c *core.Ctx) {
 		r09SubKeepsConfig(c, p)
 		r09FoldThenCut(c, p)
 		r09NoDotRoot(c, p)
+		r09RelPathUnrooted(c, p)
+		// R09.12 (= R07.1): roots are joined with path.Join on validated names, never glued with "+"
+		{
+			va := newValidAnalysis(p)
+			va.solve()
+			c.WithAlias(map[string]string{"R07.1": "R09.12"}, func() { r07Joins(c, p, va) })
+		}
 		r09Abs(c, p, rev)
 		for _, v := range prefixTests(p, rev) {
 			c.Check(v.ok, "R09.4", "os.fromOSPath|"+v.key, v.pos, v.msg, v.msg)
@@ -65,6 +74,8 @@ func runC09(c *core.Ctx) {
 	c.Floor("R09.6", 1)
 	c.Floor("R09.7", 1)
 	c.Floor("R09.8", 2)
+	c.Floor("R09.11", 1)
+	c.Floor("R09.12", 5)
 }
 
 func isStdOSFunc(fn *ssa.Function) bool {
@@ -672,4 +683,49 @@ func r09NoDotRoot(c *core.Ctx, p *load.Program) {
 	if n == 0 {
 		c.Hard("anchor: store of the root field in os.FS.Sub")
 	}
+}
+
+// r09RelPathUnrooted (R09.11): every non-constant string os.relPath returns went through strings.TrimPrefix(_, "/"):
+// the root of an FS without a Sub root is "/" (or `C:\`), which already ends in the separator — a cut of
+// root+separator alone removes nothing there, and the OS's absolute path comes back as the error's path.
+func r09RelPathUnrooted(c *core.Ctx, p *load.Program) {
+	fn := p.Func("os", "relPath")
+	if fn == nil {
+		c.Hard("anchor: os.relPath")
+		return
+	}
+	bad := ""
+	n := 0
+	for _, r := range ssax.Returns(fn) {
+		if len(r.Results) != 1 {
+			continue
+		}
+		var leaves func(v ssa.Value, d int, seen map[ssa.Value]bool) []ssa.Value
+		leaves = func(v ssa.Value, d int, seen map[ssa.Value]bool) []ssa.Value {
+			if ph, ok := v.(*ssa.Phi); ok && d < 6 && !seen[v] {
+				seen[v] = true
+				var out []ssa.Value
+				for _, e := range ph.Edges {
+					out = append(out, leaves(e, d+1, seen)...)
+				}
+				return out
+			}
+			return []ssa.Value{v}
+		}
+		for _, v := range leaves(r.Results[0], 0, map[ssa.Value]bool{}) {
+			if _, isC := v.(*ssa.Const); isC {
+				continue
+			}
+			n++
+			cl, ok := v.(*ssa.Call)
+			if ok && ssax.CalleeIs(cl, "strings", "TrimPrefix") {
+				if s, isC := ssax.ConstString(cl.Call.Args[1]); isC && s == "/" {
+					continue
+				}
+			}
+			bad = p.Pos(r.Pos())
+		}
+	}
+	c.Check(bad == "" && n > 0, "R09.11", "os.relPath|result-has-no-leading-separator", p.Pos(fn.Pos()), "every computed result went through TrimPrefix(_, \"/\")",
+		fmt.Sprintf("os.relPath returns at %s a string that did not pass strings.TrimPrefix(_, \"/\"): for an FS without a Sub root the OS root already ends in the separator, a cut of root+separator removes nothing, and errors carry the absolute OS path (\"/tmp/x/missing\") instead of an FS-relative name", bad))
 }
